@@ -313,6 +313,10 @@ class DiffAntisymRBF(DiffRBF):
 
 
 class DiffLinearKernel(DiffKernelMixin, Kernel):
+    def __init__(self):
+        # explicit signature: sklearn's get_params rejects the inherited *args one
+        pass
+
     def __call__(self, X, Y=None, eval_gradient=False):
         if Y is None:
             Y = X
